@@ -41,15 +41,19 @@ ASSUMPTIONS = [
 ]
 WALL = {"quick": 600, "thorough": 3000}
 
-COMPS = ["magic", "defn", "caption", "marker-args", "marker-pre", "bare-url", "pre-table", "quote-sep"]
+COMPS = ["magic", "defn", "caption", "marker-args", "marker-pre", "bare-url", "quote-sep"]
 MECH = {"magic": "MAGIC_WORD-emitted-on-a-line-of-its-own",
         "defn": "LIST_ITEM-definition-not-emitted",
         "caption": "TABLE_CAPTION-content-emitted-on-the-next-line",
         "marker-args": "bracket-protection-marker-kept-inside-brace-arguments",
         "marker-pre": "bracket-protection-marker-kept-inside-PRE",
         "bare-url": "bare-URL-emitted-in-brackets",
-        "pre-table": "TABLE-inside-PREFORMATTED-emitted-after-an-empty-line",
         "quote-sep": "quote-runs-of-adjacent-BOLD-ITALIC-nodes-merge"}
+
+
+def bare_able(node):
+    a = node.largs
+    return len(a) == 1 and len(a[0]) == 1 and isinstance(a[0][0], str) and re.match(r"(https?|ftp)://[\w./~-]+$", a[0][0]) is not None
 
 
 def to_attrs_ref(node):
@@ -137,23 +141,20 @@ class Monitor:
                             if c.kind in QUOTE and prev is not None and not isinstance(prev, str) and prev.kind in QUOTE:
                                 sep_before.add(id(c))
                         prev = c
-        to_wikitext = self.NE.to_wikitext
 
         def h(node):
             k = node.kind
             if k == K.MAGIC_WORD and "magic" in comps:
                 return node.sarg
             if k == K.LIST_ITEM and node.definition and "defn" in comps:
-                return [node.sarg] + list(node.children) + [":"] + list(node.definition)
+                ch = list(node.children)
+                two_lines = bool(ch) and isinstance(ch[-1], str) and ch[-1].endswith("\n")
+                return [node.sarg] + ch + [(node.sarg[:-1] if two_lines else "") + ":"] + list(node.definition)
             if k == K.TABLE_CAPTION and "caption" in comps:
                 a = self.to_attrs(node)
                 return ["\n|+" + (" " + a + " |" if a else "")] + list(node.children) + ["\n"]
-            if k == K.URL and "bare-url" in comps and len(node.largs) == 1:
+            if k == K.URL and "bare-url" in comps and bare_able(node):
                 return list(node.largs[0])
-            if k == K.PREFORMATTED and "pre-table" in comps and any(
-                    not isinstance(c, str) and c.kind == K.TABLE for c in node.children):
-                return [c if isinstance(c, str) or c.kind != K.TABLE else to_wikitext(c, node_handler_fn=h).lstrip("\n")
-                        for c in node.children]
             if id(node) in sep_before:
                 sep_before.discard(id(node))
                 return [MARK, node]
@@ -178,10 +179,8 @@ class Monitor:
                     app.add("defn")
                 elif k == K.TABLE_CAPTION:
                     app.add("caption")
-                elif k == K.URL and len(n.largs) == 1:
+                elif k == K.URL and bare_able(n):
                     app.add("bare-url")
-                elif k == K.PREFORMATTED and any(not isinstance(c, str) and c.kind == K.TABLE for c in n.children):
-                    app.add("pre-table")
                 elif k == K.PRE and MARK in w:
                     app.add("marker-pre")
                 elif k.name in BRACE and MARK in w:
@@ -204,23 +203,39 @@ class Monitor:
         construct the way the input grammar writes it, or delete the protection marker where the
         parser is known to keep it verbatim.  Only used to NAME a failure that the plain relation found."""
         app = self.applicable(x, w)
-        for size in range(1, len(app) + 1):
-            for comps in itertools.combinations(app, size):
-                try:
-                    with cpu_guard(30):
-                        w2 = self.ctx.node_to_wikitext(x, node_handler_fn=self.handler(comps, x))
-                        t = self.parse(w2)
-                except BaseException:
-                    continue
-                relax = tuple(c for c in comps if c.startswith("marker"))
-                if whole:
-                    ok = N_node(x, relax) == N_node(t, relax)
-                else:
-                    ok = N_list(x if isinstance(x, (list, tuple)) else [x], True, relax) == N_node(t, relax)[4]
-                self.obs.count("explain.attempts")
-                if ok:
-                    return comps
-        return None
+        if not app:
+            return None
+
+        def ok(comps):
+            self.obs.count("explain.attempts")
+            try:
+                with cpu_guard(30):
+                    w2 = self.ctx.node_to_wikitext(x, node_handler_fn=self.handler(comps, x))
+                    t = self.parse(w2)
+            except BaseException:
+                return False
+            relax = tuple(c for c in comps if c.startswith("marker"))
+            if "quote-sep" in comps:
+                relax += ("marker-args",)       # the separator itself is kept verbatim inside brace arguments
+            if whole:
+                return N_node(x, relax) == N_node(t, relax)
+            return N_list(x if isinstance(x, (list, tuple)) else [x], True, relax) == N_node(t, relax)[4]
+
+        cur = tuple(app)
+        if not ok(cur):
+            # not monotone in rare cases: look for a small explaining set before giving up
+            for size in (1, 2):
+                for comps in itertools.combinations(app, size):
+                    if len(comps) < len(app) and ok(comps):
+                        return comps
+            return None
+        for c in app:                      # 1-minimal subset, fixed order
+            if len(cur) == 1:
+                break
+            trial = tuple(y for y in cur if y != c)
+            if ok(trial):
+                cur = trial
+        return cur
 
     def judge(self, P, rule, x, w, want, got, whole, where):
         """want/got: canonical forms.  Records nothing when equal."""
